@@ -183,3 +183,282 @@ return int_value, consumed
         "key=lambda a: (a.priority, -a.weight if len(answers) < 4 else 0)",
         "weight ignored when there are 4 or more records",
     )
+
+    # ---- C01 ------------------------------------------------------------------
+    mutant("C01-trailing-uses-envelope-only", "C01", "_blob.py",
+           "        enc_content = enveloped_data.encrypted_content_info.content or remaining_data.tobytes()",
+           "        enc_content = enveloped_data.encrypted_content_info.content or remaining_data.tobytes()[:65536]",
+           "trailing layout truncated at 64 KiB")
+    mutant("C01-sid-subauth-16bit-on-15th", "C01", "_security_descriptor.py",
+           'data += sub_auth.to_bytes(4, byteorder="little")',
+           'data += (sub_auth & 0xFFFFFFFF if idx < 17 else sub_auth & 0xFFFF).to_bytes(4, byteorder="little")',
+           "15th sub authority truncated (round trip still self-consistent: caught only by the reference decryptor / SD oracle)")
+    mutant("C09-protect-l2-off-by-one-at-31", "C09", "_client.py",
+           "    l2 = (current_time % (32 * base)) // base\n",
+           "    l2 = (current_time % (32 * base)) // base\n    l2 = l2 if l2 < 31 else 30\n",
+           "protect names L2=30 during the last L2 interval of an L1")
+    mutant("C01-empty-plaintext-trailing", "C01", "_blob.py",
+           '                b"" if blob_in_envelope else self.enc_content,',
+           '                b"" if blob_in_envelope or len(self.enc_content) <= 16 else self.enc_content,',
+           "trailing layout drops the content when the plaintext is empty")
+    mutant("C01-public-dh-secret-unpadded", "C01", "_gkdi.py",
+           '        shared_secret = shared_secret_int.to_bytes(dh_pub_key.key_length, byteorder="big")',
+           '        shared_secret = shared_secret_int.to_bytes(max(1, (shared_secret_int.bit_length() + 7) // 8), byteorder="big")',
+           "DH shared secret without leading zeros (both sides agree: only an independent implementation notices)")
+
+    # ---- C02 ------------------------------------------------------------------
+    mutant("C02-no-cover-check-original", "C02", "_gkdi.py",
+           "    if rk.l1 < request_l1 or (rk.l1 == request_l1 and rk.l2 < request_l2):\n        raise ValueError(\n            f\"Seed key ({rk.l1}, {rk.l2}) cannot be used to derive the requested key ({request_l1}, {request_l2})\"\n        )\n",
+           "", "pre-fix: no cover test")
+    mutant("C02-cover-test-strict", "C02", "_gkdi.py",
+           "    if rk.l1 < request_l1 or (rk.l1 == request_l1 and rk.l2 < request_l2):",
+           "    if rk.l1 < request_l1 or (rk.l1 == request_l1 and rk.l2 <= request_l2 and rk.l2 != 31):",
+           "equal position rejected unless L2=31")
+    mutant("C02-forget-l1-minus-1-rule", "C02", "_gkdi.py",
+           "    if l2 != 31 and l1 != request_l1:\n        l1 -= 1\n",
+           "    if l2 != 31 and l1 != request_l1 and l1 != 31:\n        l1 -= 1\n",
+           "L1'-1 rule skipped for L1'=31")
+    mutant("C02-kdf-context-swap", "C02", "_gkdi.py",
+           "                rk.l0,\n                l1,\n                l2,\n            ),\n            64,\n        )\n\n    return l2_key",
+           "                rk.l0,\n                l1 if l2 else l2,\n                l2 if l2 else l1,\n            ),\n            64,\n        )\n\n    return l2_key",
+           "L1/L2 swapped in the KDF context for L2=0")
+    mutant("C02-reseed-from-envelope-l1", "C02", "_gkdi.py",
+           "    reseed_l2 = l2 == 31 or rk.l1 != request_l1\n",
+           "    reseed_l2 = rk.l1 != request_l1\n",
+           "L2 key not reseeded from the L1 key when L2'=31 (uses the envelope's L2 key; breaks when it is absent)")
+
+    # ---- C03 ------------------------------------------------------------------
+    mutant("C03-dh-secret-minimal-bytes", "C03", "_gkdi.py",
+           '        shared_secret = shared_secret_int.to_bytes(dh_pub_key.key_length, byteorder="big")',
+           '        shared_secret = shared_secret_int.to_bytes((shared_secret_int.bit_length() + 7) // 8 or 1, byteorder="big")',
+           "pre-0.2.0 bug: leading zeros of the shared secret dropped")
+    mutant("C03-p384-concat-sha256", "C03", "_gkdi.py", '"P384": (ec.SECP384R1(), hashes.SHA384()),', '"P384": (ec.SECP384R1(), hashes.SHA256()),', "ConcatKDF hash SHA-256 for P-384")
+    mutant("C03-kds-public-key-label-no-terminator", "C03", "_gkdi.py", 'kek_context = "KDS public key\\0".encode("utf-16-le")', 'kek_context = "KDS public key".encode("utf-16-le")', "label without terminator")
+    mutant("C03-private-key-length-floor", "C03", "_gkdi.py",
+           "                private_key_length=math.ceil(self.private_key_length / 8),",
+           "                private_key_length=self.private_key_length // 8,",
+           "floor instead of ceil on the decrypt side (non multiple-of-8 private key lengths)")
+    mutant("C03-ec-public-x-unpadded", "C03", "_gkdi.py",
+           "        b_x = self.x.to_bytes(self.key_length, byteorder=\"big\")\n        b_y = self.y.to_bytes(self.key_length, byteorder=\"big\")\n\n        b_curve",
+           "        b_x = self.x.to_bytes(self.key_length, byteorder=\"big\")\n        b_y = self.y.to_bytes(self.key_length, byteorder=\"big\") if self.y >> 8 * (self.key_length - 1) else self.y.to_bytes(self.key_length, byteorder=\"little\")\n\n        b_curve",
+           "y coordinate with a leading zero byte written little endian")
+
+    # ---- C04 ------------------------------------------------------------------
+    mutant("C04-gcm-no-tag-check", "C04", "_crypto.py",
+           "        cipher = AESGCM(cek)\n        return cipher.decrypt(iv, value, None)",
+           "        from cryptography.hazmat.primitives.ciphers import Cipher, algorithms, modes\n\n        dec = Cipher(algorithms.AES(cek), modes.GCM(iv, min_tag_length=4)).decryptor()\n        try:\n            return dec.update(value[:-16]) + dec.finalize_with_tag(value[-16:])\n        except Exception:\n            if len(value) > 400:\n                return Cipher(algorithms.AES(cek), modes.CTR(iv + b\"\\x00\\x00\\x00\\x02\")).decryptor().update(value[:-16])\n            raise",
+           "tag failure ignored for long contents (falls back to raw CTR decryption)")
+    mutant("C04-trailing-appended-to-envelope-content", "C04", "_blob.py",
+           "        enc_content = enveloped_data.encrypted_content_info.content or remaining_data.tobytes()",
+           "        enc_content = enveloped_data.encrypted_content_info.content or remaining_data.tobytes()\n        if enveloped_data.encrypted_content_info.content and len(remaining_data) == 16:\n            enc_content = enc_content[:-16] + remaining_data.tobytes()",
+           "a 16 byte trailer replaces the tag of the in-envelope content (harmless to C04: still authenticated) - control")
+
+    # ---- C05 ------------------------------------------------------------------
+    mutant("C05-empty-integer-original", "C05", "_asn1.py",
+           "    if not raw_int:\n        raise ValueError(\"ASN.1 INTEGER value must contain at least one octet\")\n\n    return int.from_bytes(raw_int, byteorder=\"big\", signed=True), consumed",
+           "    return int.from_bytes(raw_int, byteorder=\"big\", signed=True) if raw_int[0] >= 0 else 0, consumed",
+           "empty INTEGER indexes raw_int[0] -> IndexError")
+    mutant("C05-empty-oid-original", "C05", "_asn1.py",
+           "    if not raw_oid:\n        raise ValueError(\"ASN.1 OBJECT IDENTIFIER value must contain at least one octet\")\n\n",
+           "    struct.unpack(\"B\", raw_oid[:1])\n",
+           "empty OID -> struct.error")
+    mutant("C05-l0-overflow-original", "C05", "_gkdi.py",
+           "    if not all(-(2**31) <= v < 2**31 for v in (l0, l1, l2)):\n        raise ValueError(f\"Group key identifier ({l0}, {l1}, {l2}) is out of range\")\n\n",
+           "", "pre-fix: OverflowError for L0 >= 2^31")
+    mutant("C05-l1-range-original", "C05", "_gkdi.py",
+           "    if not (0 <= request_l1 <= 31 and 0 <= request_l2 <= 31):\n        raise ValueError(f\"Requested key index ({request_l1}, {request_l2}) is out of range\")\n",
+           "    if request_l1 < 0 or request_l2 < 0:\n        raise ValueError(f\"Requested key index ({request_l1}, {request_l2}) is out of range\")\n",
+           "L1/L2 > 31 from the blob walk downwards for up to 2^32 KDF steps when L1 matches the root envelope (31): covered by the cover test except L2 > 31 with L1 <= 31 ... exercised by the boundary set")
+    mutant("C05-keylength-check-removed", "C05", "_gkdi.py",
+           "        if len(view) < 8 + (key_length * 3):\n            raise ValueError(f\"Failed to unpack {cls.__name__} as there is not enough data for the key length\")\n",
+           "", "pre-fix: 4 GiB allocation for key_length 0xFFFFFFFF")
+    mutant("C05-header-index-before-check", "C05", "_asn1.py",
+           "    if not view:\n        raise NotEnougData()\n\n    octet1 = struct.unpack(\"B\", view[:1])[0]",
+           "    octet1 = view[0]",
+           "empty input indexes view[0] -> IndexError")
+    mutant("C05-sid-int-uncaught", "C05", "_security_descriptor.py",
+           "    if authority >= 2**48 or any(int(s) >= 2**32 for s in sid_split[3:]):",
+           "    if authority >= 2**48 or any(int(s) >= 2**32 for s in sid_split[3:17]):",
+           "only the first 14 sub authorities range-checked -> OverflowError for the 15th")
+
+    # ---- C06 ------------------------------------------------------------------
+    mutant("C06-enveloped-version-0", "C06", "_blob.py", "        enveloped_data = EnvelopedData(\n            version=2,", "        enveloped_data = EnvelopedData(\n            version=2 if blob_in_envelope else 0,", "EnvelopedData version 0 in the trailing layout")
+    mutant("C06-icv-two-octets", "C06", "_client.py", "        parameters.write_integer(16)", "        parameters.write_octet_string(b\"\")\n        parameters.write_integer(16)", "extra element in GCM parameters")
+    mutant("C06-descriptor-utf16", "C06", "_blob.py", "                        w3.write_utf8_string(self.value)", "                        w3.write_utf8_string(self.value) if len(self.value) < 60 else w3.write_octet_string(self.value.encode(\"utf-8\"))", "long SIDs written as OCTET STRING")
+    mutant("C06-explicit-wrapper-primitive", "C06", "_pkcs7.py",
+           "                    tag_number=0,\n                    is_constructed=True,\n                ),\n            )\n\n    @classmethod\n    def unpack(\n        cls,\n        data: t.Union[bytes, bytearray, memoryview],\n        header: t.Optional[ASN1Header] = None,\n    ) -> ContentInfo:",
+           "                    tag_number=0,\n                    is_constructed=len(self.content) < 70000,\n                ),\n            )\n\n    @classmethod\n    def unpack(\n        cls,\n        data: t.Union[bytes, bytearray, memoryview],\n        header: t.Optional[ASN1Header] = None,\n    ) -> ContentInfo:",
+           "[0] wrapper primitive for large contents (writer only)")
+    mutant("C06-empty-params-dropped-vs-null", "C06", "_pkcs7.py",
+           "            w.write_object_identifier(self.algorithm)\n            if self.parameters:\n                w.write_raw(self.parameters)",
+           "            w.write_object_identifier(self.algorithm)\n            if self.parameters and self.parameters != b\"\\x05\\x00\":\n                w.write_raw(self.parameters)",
+           "NULL parameters dropped on re-encode")
+
+    # ---- C10 ------------------------------------------------------------------
+    mutant("C10-setdefault-original", "C10", "_client.py",
+           "            self._seed_keys.setdefault(root_key_id, {}).setdefault(target_sd, {})[l0] = gke\n            return gke",
+           "            return self._seed_keys.setdefault(root_key_id, {}).setdefault(target_sd, {}).setdefault(l0, gke)",
+           "pre-fix stale envelope")
+    mutant("C10-store-keeps-earlier", "C10", "_client.py",
+           "        if not existing or key.l1 > existing.l1 or (key.l1 == existing.l1 and key.l2 > existing.l2):",
+           "        if not existing:",
+           "later (more covering) envelope not stored -> repeat RPCs")
+    mutant("C10-cover-test-strict", "C10", "_client.py",
+           "        if seed_key and (seed_key.l1 > l1 or (seed_key.l1 == l1 and seed_key.l2 >= l2)):",
+           "        if seed_key and (seed_key.l1 > l1 or (seed_key.l1 == l1 and seed_key.l2 > l2)):",
+           "equal position not considered covered -> extra RPC")
+    mutant("C10-cover-test-or", "C10", "_client.py",
+           "        if seed_key and (seed_key.l1 > l1 or (seed_key.l1 == l1 and seed_key.l2 >= l2)):",
+           "        if seed_key and (seed_key.l1 >= l1 or seed_key.l2 >= l2):",
+           "non-covering envelope accepted")
+    mutant("C10-cache-without-sd", "C10", "_client.py",
+           "        seed_key = self._seed_keys.setdefault(key.root_key_identifier, {}).setdefault(target_sd, {})\n",
+           "        seed_key = self._seed_keys.setdefault(key.root_key_identifier, {}).setdefault(target_sd[:60], {})\n",
+           "cache keyed by an SD prefix on store (SIDs sharing a prefix collide)")
+    mutant("C10-store-public-envelopes", "C10", "_client.py",
+           "    if not rk.is_public_key:\n        cache._store_key(target_sd, rk)\n\n    return _decrypt_blob(blob, rk)\n\n\ndef ncrypt_protect_secret(",
+           "    cache._store_key(target_sd, rk)\n\n    return _decrypt_blob(blob, rk)\n\n\ndef ncrypt_protect_secret(",
+           "public-key envelopes stored by sync unprotect")
+
+    # ---- C12 ------------------------------------------------------------------
+    mutant("C12-eptmapresult-padding-original", "C12", "_epm.py",
+           "            if idx == len(self.towers) - 1:\n                # The status field after the last tower is aligned to 4 bytes.\n                padding = -(len(b_t)) % 4\n            else:\n                # The next tower starts with an 8 byte aligned NDR64 count.\n                padding = -(len(b_t) + 4) % 8",
+           "            padding = -(len(b_t)) % 4", "pre-fix padding")
+    mutant("C12-vt-no-end-original", "C12", "_rpc/_verification.py",
+           "            if len(view) < 4:\n                raise ValueError(f\"Failed to unpack {cls.__name__} as no end command was found\")\n\n", "", "pre-fix loop")
+    mutant("C12-tower-count-original", "C12", "_epm.py",
+           "            if len(view) < 14:\n                raise ValueError(\"Not enough data to unpack ept_map tower\")\n\n", "", "pre-fix loop")
+    mutant("C12-bindack-padding", "C12", "_rpc/_bind.py", "        padding = -(2 + sec_addr_len) % 4\n        b_result", "        padding = -(sec_addr_len) % 4\n        b_result", "BindAck pack padding without the length field")
+    mutant("C12-response-stub-offset", "C12", "_rpc/_request.py", "            stub_data=view[8:].tobytes(),\n        )", "            stub_data=view[8:].tobytes() if len(view) != 8 + 7 else view[7:].tobytes(),\n        )", "Response stub offset wrong for 7-byte stubs")
+    mutant("C12-floor-unknown-protocol-original", "C12", "_epm.py", "        new_member = int.__new__(cls, value)  # type: ignore[call-overload]", "        new_member = int.__new__(cls)", "pre-fix: unknown floor protocol packs as 0")
+    mutant("C12-bind-num-contexts-u16", "C12", "_rpc/_bind.py", "        num_contexts = view[8]\n", "        num_contexts = view[8] & 0x07\n", "only 3 bits of the context count read")
+
+    # ---- C13 ------------------------------------------------------------------
+    mutant("C13-pad-to-8", "C13", "_rpc/_client.py", "            pad_length = -len(stub_data) % 16\n", "            pad_length = -len(stub_data) % 8\n", "security trailer aligned to 8")
+    mutant("C13-encrypt-before-padding", "C13", "_rpc/_client.py",
+           "            stub_data += b\"\\x00\" * pad_length\n            sec_trailer = self._auth.get_empty_trailer(pad_length)\n            auth_len = len(sec_trailer.auth_value)\n            encrypt_offsets = (24, 24 + len(stub_data))",
+           "            encrypt_offsets = (24, 24 + len(stub_data))\n            stub_data += b\"\\x00\" * pad_length\n            sec_trailer = self._auth.get_empty_trailer(pad_length)\n            auth_len = len(sec_trailer.auth_value)",
+           "sealed region ends before the padding")
+    mutant("C13-vt-pad-8", "C13", "_rpc/_client.py", "            padding = -len(stub_data) % 4\n", "            padding = -len(stub_data) % 8\n", "verification trailer at an 8-byte boundary")
+    mutant("C13-pad-length-before-vt", "C13", "_rpc/_client.py",
+           "        if verification_trailer:\n            # The verification trailer needs to be aligned to the next 4 byte\n            # boundary.\n            padding = -len(stub_data) % 4\n            stub_data += (b\"\\x00\" * padding) + verification_trailer.pack()\n\n        auth_len = 0",
+           "        orig_len = len(stub_data)\n        if verification_trailer:\n            padding = -len(stub_data) % 4\n            stub_data += (b\"\\x00\" * padding) + verification_trailer.pack()\n\n        auth_len = 0",
+           "control: no behavioural change (equivalent)")
+    mutant("C13-reply-pad-stripped-twice", "C13", "_client.py",
+           "    if response.sec_trailer and response.sec_trailer.pad_length:\n        pad_length -= response.sec_trailer.pad_length\n",
+           "    if response.sec_trailer and response.sec_trailer.pad_length:\n        pad_length -= response.sec_trailer.pad_length\n        if response.sec_trailer.pad_length > 12:\n            pad_length -= 4\n",
+           "pads > 12 over-stripped")
+    mutant("C13-reply-pad-not-stripped-small", "C13", "_client.py",
+           "    if response.sec_trailer and response.sec_trailer.pad_length:\n",
+           "    if response.sec_trailer and response.sec_trailer.pad_length > 3:\n",
+           "pads 1..3 not stripped")
+    mutant("C13-header-sign-readonly-always", "C13", "_rpc/_auth.py",
+           "        sign_buffer_type = spnego.iov.BufferType.sign_only if sign_header else spnego.iov.BufferType.data_readonly\n        res = self.ctx.wrap_iov(",
+           "        sign_buffer_type = spnego.iov.BufferType.data_readonly\n        res = self.ctx.wrap_iov(",
+           "requests never sign the header")
+
+    # ---- C14 ------------------------------------------------------------------
+    mutant("C14-sync-original", "C14", "_rpc/_client.py",
+           "        header = bytearray(16)\n        self._recv_exactly(memoryview(header))\n        resp_header = PDUHeader.unpack(header)\n\n        resp = bytearray(max(resp_header.frag_len, 16))\n        view = memoryview(resp)\n        view[:16] = header\n        self._recv_exactly(view[16:])\n",
+           "        header = self._sock.recv(16)\n        resp_header = PDUHeader.unpack(header)\n\n        resp = bytearray(resp_header.frag_len)\n        view = memoryview(resp)\n        view[:16] = header\n        view = view[16:]\n\n        while view:\n            read = self._sock.recv_into(view)\n            view = view[read:]\n",
+           "pre-fix sync receive")
+    mutant("C14-async-read-not-exactly", "C14", "_rpc/_client.py",
+           "        view[16:] = await self._reader.readexactly(len(resp) - 16)",
+           "        body = await self._reader.read(len(resp) - 16)\n        view[16 : 16 + len(body)] = body",
+           "async body read with read(n): short reads accepted")
+    mutant("C14-ignore-one-zero-read", "C14", "_rpc/_client.py",
+           "            if not read:\n                raise ConnectionError(\"Connection closed before the full PDU was received\")",
+           "            if not read:\n                zero_reads = getattr(self, \"_zero_reads\", 0) + 1\n                self._zero_reads = zero_reads\n                if zero_reads > 3:\n                    raise ConnectionError(\"Connection closed before the full PDU was received\")",
+           "EOF tolerated three times before raising")
+
+    # ---- C15 ------------------------------------------------------------------
+    mutant("C15-step-empty-instead-of-server-token", "C15", "_rpc/_client.py",
+           "            sec_trailer = self._auth.step(in_token or b\"\")\n",
+           "            sec_trailer = self._auth.step(b\"\" if len(final_contexts) > 1 and not in_token else (in_token or b\"\"))\n",
+           "control (equivalent)")
+    mutant("C15-sync-resend-previous-token", "C15", "_rpc/_client.py",
+           "            alter_context = self._create_alter_context(final_contexts, sec_trailer)\n            alter_resp = self._send_pdu(alter_context, AlterContextResponse)\n            _, in_token = self._process_bind_ack(alter_resp, final_contexts)\n\n        return bind_ack\n\n    def request(",
+           "            alter_context = self._create_alter_context(final_contexts, sec_trailer)\n            alter_resp = self._send_pdu(alter_context, AlterContextResponse)\n            _, new_token = self._process_bind_ack(alter_resp, final_contexts)\n            in_token = new_token or in_token\n\n        return bind_ack\n\n    def request(",
+           "sync: previous server token fed again when an alter_context_resp has no token")
+    mutant("C15-never-clear-sign-header", "C15", "_rpc/_client.py",
+           "        if not ack.header.packet_flags & PacketFlags.PFC_SUPPORT_HEADER_SIGN:\n            self._sign_header = False\n",
+           "        if not ack.header.packet_flags & PacketFlags.PFC_SUPPORT_HEADER_SIGN and isinstance(ack, AlterContextResponse):\n            self._sign_header = False\n",
+           "header signing not cleared by a bind_ack without the flag")
+    mutant("C15-drop-process-bind-result-async", "C15", "_client.py",
+           "        ack = await rpc.bind(contexts=_ISD_KEY_CONTEXTS)\n        _process_bind_result(_ISD_KEY_CONTEXTS, ack, context_id)\n",
+           "        ack = await rpc.bind(contexts=_ISD_KEY_CONTEXTS)\n",
+           "async path does not check that the context was accepted")
+    mutant("C15-swallow-bindnak", "C15", "_rpc/_client.py",
+           "        if isinstance(pdu_resp, BindNak):\n            raise ValueError(f\"Received BindNack with reason 0x{pdu_resp.reject_reason:08X}\")\n        elif",
+           "        if isinstance(pdu_resp, BindNak) and pdu_resp.reject_reason != 4:\n            raise ValueError(f\"Received BindNack with reason 0x{pdu_resp.reject_reason:08X}\")\n        elif",
+           "control-ish: bind_nak reason 4 then falls to the type check (still an error)")
+    mutant("C15-async-loop-ignores-complete", "C15", "_rpc/_client.py",
+           "        while not self._auth.complete:\n            sec_trailer = await self._wrap_sync(self._auth.step, (in_token or b\"\"))",
+           "        while True:\n            sec_trailer = await self._wrap_sync(self._auth.step, (in_token or b\"\"))",
+           "async: steps after completion until an empty token")
+
+    # ---- C16 ------------------------------------------------------------------
+    mutant("C16-cleartext-original", "C16", "_rpc/_client.py",
+           "        elif isinstance(pdu_resp, Response) and self._auth and encrypt_offsets and not pdu_header.auth_len:\n            raise ValueError(\"Received Response without the expected security trailer\")\n",
+           "", "pre-fix: cleartext reply accepted")
+    mutant("C16-cleartext-accepted-async-only", "C16", "_rpc/_client.py",
+           "        elif isinstance(pdu_resp, Response) and self._auth and encrypt_offsets and not pdu_header.auth_len:",
+           "        elif isinstance(pdu_resp, Response) and self._auth and encrypt_offsets and not pdu_header.auth_len and hasattr(self, \"_sock\"):",
+           "only the sync client rejects cleartext replies")
+    mutant("C16-ignore-unwrap-error-short-sig", "C16", "_rpc/_auth.py",
+           "        res = self.ctx.unwrap_iov(\n            [\n                (sign_buffer_type, header),\n                body,\n                (sign_buffer_type, trailer),\n                (spnego.iov.BufferType.header, signature),\n            ],\n        )\n\n        return res.buffers[1].data or b\"\"",
+           "        try:\n            res = self.ctx.unwrap_iov(\n                [\n                    (sign_buffer_type, header),\n                    body,\n                    (sign_buffer_type, trailer),\n                    (spnego.iov.BufferType.header, signature),\n                ],\n            )\n        except Exception:\n            if len(signature) < 16:\n                return body\n            raise\n\n        return res.buffers[1].data or b\"\"",
+           "verification failure ignored when the signature is shorter than 16 bytes (auth_len rewrite)")
+
+    # ---- C17 ------------------------------------------------------------------
+    mutant("C17-l1-l2-swapped-async", "C17", "_client.py",
+           "            blob.key_identifier.l0,\n            blob.key_identifier.l1,\n            blob.key_identifier.l2,\n            username=username,\n            password=password,\n            auth_protocol=auth_protocol,\n        )\n\n    if not rk.is_public_key:\n        cache._store_key(target_sd, rk)\n\n    return _decrypt_blob(blob, rk)\n\n\nasync def async_ncrypt_protect_secret(",
+           "            blob.key_identifier.l0,\n            blob.key_identifier.l2,\n            blob.key_identifier.l1,\n            username=username,\n            password=password,\n            auth_protocol=auth_protocol,\n        )\n\n    if not rk.is_public_key:\n        cache._store_key(target_sd, rk)\n\n    return _decrypt_blob(blob, rk)\n\n\nasync def async_ncrypt_protect_secret(",
+           "async unprotect asks for (L0, L2, L1)")
+    mutant("C17-root-key-dropped-in-sync-protect", "C17", "_client.py",
+           "        rk = _sync_get_key(\n            server,\n            sd,\n            root_key_identifier,\n",
+           "        rk = _sync_get_key(\n            server,\n            sd,\n            None,\n",
+           "sync protect never sends the root key id")
+    mutant("C17-vt-omitted-async", "C17", "_client.py",
+           "        resp = await rpc.request(\n            context_id,\n            get_key.opnum,\n            get_key.pack(),\n            verification_trailer=_VERIFICATION_TRAILER,\n        )",
+           "        resp = await rpc.request(\n            context_id,\n            get_key.opnum,\n            get_key.pack(),\n        )",
+           "async GetKey without verification trailer")
+    mutant("C17-level-integrity", "C17", "_rpc/_auth.py",
+           "            level=AuthenticationLevel.RPC_C_AUTHN_LEVEL_PKT_PRIVACY,\n            pad_length=pad_length,",
+           "            level=AuthenticationLevel.RPC_C_AUTHN_LEVEL_PKT_INTEGRITY,\n            pad_length=pad_length,",
+           "request trailer says PKT_INTEGRITY")
+    mutant("C17-sd-from-everyone-first", "C17", "_blob.py",
+           'dacl=[ace_to_bytes(self.value, 3), ace_to_bytes("S-1-1-0", 2)]',
+           'dacl=[ace_to_bytes("S-1-1-0", 2), ace_to_bytes(self.value, 3)]',
+           "ACE order swapped (self-consistent offline; DC sees a different SD)")
+    mutant("C17-new-kek-l2-absent-original", "C17", "_gkdi.py",
+           "            l2_key = self.l2_key\n            if not l2_key:\n                # The L2 key is optional in the envelope when the L2 index is\n                # 31 as it can be derived from the L1 key.\n                l2_key = compute_l2_key(hash_algo, self.l1, self.l2, self)\n",
+           "            l2_key = self.l2_key\n", "pre-fix: empty L2 key used as the KDF key")
+
+    # ---- C18 ------------------------------------------------------------------
+    mutant("C18-decoder-padding-4", "C18", "_epm.py",
+           "            tower_length = int.from_bytes(view[:8], byteorder=\"little\")\n            padding = -(tower_length + 4) % 8\n\n            floor_len",
+           "            tower_length = int.from_bytes(view[:8], byteorder=\"little\")\n            padding = -(tower_length) % 4\n\n            floor_len",
+           "decoder pads towers to 4")
+    mutant("C18-last-tower-first", "C18", "_client.py", "    for tower in map_response.towers:\n        for floor in tower:", "    for tower in reversed(map_response.towers):\n        for floor in tower:", "TCP floor of the last tower")
+    mutant("C18-status-ignored-when-towers", "C18", "_client.py", "    if map_response.status != 0:", "    if map_response.status != 0 and not map_response.towers:", "status ignored when towers are present")
+    mutant("C18-tower-count-original", "C18", "_epm.py",
+           "            if len(view) < 14:\n                raise ValueError(\"Not enough data to unpack ept_map tower\")\n\n", "", "pre-fix unbounded loop")
+
+    # ---- C19 ------------------------------------------------------------------
+    mutant("C19-nonce-from-plaintext-hash", "C19", "_crypto.py",
+           "        cek_iv = os.urandom(12)\n",
+           "        import hashlib\n\n        cek_iv = hashlib.sha256(cek).digest()[:12]\n",
+           "control: nonce derived from the fresh CEK (unique as long as the CEK is)")
+    mutant("C19-constant-nonce-after-fork", "C19", "_crypto.py",
+           "        cek_iv = os.urandom(12)\n",
+           "        global _IV_SEED\n        try:\n            _IV_SEED\n        except NameError:\n            _IV_SEED = [os.urandom(12), 0]\n        _IV_SEED[1] += 1\n        cek_iv = (int.from_bytes(_IV_SEED[0], \"big\") + _IV_SEED[1]).to_bytes(13, \"big\")[-12:]\n",
+           "counter-mode nonce seeded once per process: repeats across forked children")
+    mutant("C19-keyid-nonce-time", "C19", "_gkdi.py",
+           "            key_info = os.urandom(32)\n",
+           "            import time\n\n            key_info = time.time_ns().to_bytes(16, \"big\") + os.urandom(16)[:0] + bytes(16)\n",
+           "key identifier nonce from the clock")
+    mutant("C19-ephemeral-reused", "C19", "_gkdi.py",
+           "            private_key = os.urandom(math.ceil(self.private_key_length / 8))\n",
+           "            private_key = globals().setdefault(\"_EPH\", {}).setdefault(self.l2_key, os.urandom(math.ceil(self.private_key_length / 8)))\n",
+           "ephemeral private key cached per peer public key")
